@@ -310,7 +310,38 @@ def cfg_text(spec, consts, invs=(), view=None, post=None, props=(), action_const
     return "\n".join(t) + "\n"
 
 
-def validate_traces(run, module, consts, invs, trace_path, label, max_reject=4, spec="TSpec"):
+def validate_traces(run, module, consts, invs, trace_path, label, max_reject=4, spec="TSpec", chunk_runs=None):
+    """See _validate_traces; chunk_runs splits a long concatenated trace into pieces of that many runs per TLC call."""
+    if not chunk_runs:
+        return _validate_traces(run, module, consts, invs, trace_path, label, max_reject, spec)
+    pieces, cur, seen = [], [], []
+    with open(trace_path) as f:
+        for line in f:
+            m = re.search(r'"run":\s*(\d+)', line)
+            rid = m.group(1) if m else None
+            if rid is not None and (not seen or seen[-1] != rid):
+                if rid not in seen:
+                    seen.append(rid)
+                    if len(seen) > 1 and (len(seen) - 1) % chunk_runs == 0:
+                        pieces.append(cur)
+                        cur = []
+            cur.append(line)
+    if cur:
+        pieces.append(cur)
+    out = []
+    for i, lines in enumerate(pieces):
+        pth = os.path.join(run.work, "trace-chunk.ndjson")
+        with open(pth, "w") as f:
+            f.writelines(lines)
+        out += _validate_traces(run, module, consts, invs, pth, "%s-%d" % (label, i), max_reject, spec)
+        if len(out) >= max_reject:
+            break
+    if os.path.exists(trace_path) and os.path.abspath(trace_path) != os.path.join(run.work, "trace.ndjson"):
+        pass
+    return out
+
+
+def _validate_traces(run, module, consts, invs, trace_path, label, max_reject=4, spec="TSpec"):
     """Validates a concatenated ndjson trace file with TLC; returns list of rejected runs (dicts). Rejected runs are
     cut out and the rest re-validated so one bad trace does not hide the others."""
     rejected = []
